@@ -633,3 +633,79 @@ def name_collision(case):
     if len(set(names)) < 2 or len(names) < 2:
         return f"two document items collapsed into the generated classes {names} without a diagnostic"
     return None
+
+
+# ---- equivalent documents (C17, native bounded) ---------------------------------------------------------------------------
+
+def _tree(doc=None, text=None, suffix=".json", cfg=None):
+    from .replay import generate_tree
+    import contextlib
+    import io
+    import shutil
+    with contextlib.redirect_stdout(io.StringIO()):
+        errors, out, files, tmp = generate_tree(document=doc, document_text=text, suffix=suffix, config=cfg)
+    shutil.rmtree(tmp, ignore_errors=True)
+    return files, errors
+
+
+def equivalent_docs_cases(tier):
+    return ["nullable-30-vs-typelist", "nullable-ref-allof", "wrapper-allof", "wrapper-oneof", "wrapper-anyof", "json-vs-yaml",
+            "nullable-model-oneof", "null-enum-param-shared", "wrapper-with-default"]
+
+
+def equivalent_docs(case):
+    import copy
+    import json
+    ref = {"$ref": "#/components/schemas/Leaf"}
+    leaf = {"type": "object", "properties": {"x": {"type": "integer"}}}
+    en = {"type": "string", "enum": ["a", "b"]}
+
+    def doc(props, extra=None, version="3.1.0", paths=None):
+        return {"openapi": version, "info": {"title": "t", "version": "1"}, "paths": paths or {},
+                "components": {"schemas": {"Leaf": leaf, "En": en, "M": {"type": "object", "properties": props}, **(extra or {})}}}
+    text1 = text2 = None
+    s1 = s2 = ".json"
+    if case == "nullable-30-vs-typelist":
+        d1 = doc({"p": {"type": "string", "nullable": True}, "q": {"type": "integer", "nullable": True}})
+        d2 = doc({"p": {"type": ["string", "null"]}, "q": {"type": ["integer", "null"]}})
+    elif case == "nullable-ref-allof":
+        d1 = doc({"p": {"allOf": [ref], "nullable": True}})
+        d2 = doc({"p": {"oneOf": [{"type": "null"}, {"allOf": [ref]}]}})
+    elif case == "nullable-model-oneof":
+        d1 = doc({"p": {"oneOf": [ref, {"type": "string"}], "nullable": True}})
+        d2 = doc({"p": {"oneOf": [ref, {"type": "string"}, {"type": "null"}]}})
+    elif case.startswith("wrapper-") and case != "wrapper-with-default":
+        key = {"wrapper-allof": "allOf", "wrapper-oneof": "oneOf", "wrapper-anyof": "anyOf"}[case]
+        d1 = doc({"p": {key: [ref]}, "e": {key: [{"$ref": "#/components/schemas/En"}]}})
+        d2 = doc({"p": ref, "e": {"$ref": "#/components/schemas/En"}})
+    elif case == "wrapper-with-default":
+        # a wrapper that only adds a default keeps the default (falsy ones too)
+        d1 = doc({"e": {"allOf": [{"$ref": "#/components/schemas/Num"}], "default": 0}}, {"Num": {"type": "integer", "enum": [0, 1]}})
+        f1, e1 = _tree(d1)
+        t = f1.get("models/m.py", "")
+        return None if "= Num.VALUE_0" in t else f"the default 0 declared next to the reference was not emitted: {[l for l in t.splitlines() if ' e:' in l][:2]}"
+    elif case == "json-vs-yaml":
+        d1 = doc({"p": {"type": "string", "default": "x: y"}, "when": {"type": "string", "format": "date", "default": "2020-01-02"}})
+        text2 = ("openapi: 3.1.0\ninfo: {title: t, version: '1'}\npaths: {}\ncomponents:\n  schemas:\n    Leaf: {type: object, properties: {x: {type: integer}}}\n"
+                 "    En: {type: string, enum: [a, b]}\n    M:\n      type: object\n      properties:\n        p: {type: string, default: 'x: y'}\n"
+                 "        when: {type: string, format: date, default: '2020-01-02'}\n")
+        d2, s2 = None, ".yaml"
+    elif case == "null-enum-param-shared":
+        p = {"name": "mode", "in": "query", "schema": {"type": "string", "enum": ["a", "b", None], "nullable": True}}
+        ok = {"200": {"description": ""}}
+        d1 = doc({}, paths={"/x": {"parameters": [p], "get": {"operationId": "g", "responses": ok}, "post": {"operationId": "p", "responses": ok}}})
+        d2 = doc({}, paths={"/x": {"get": {"operationId": "g", "parameters": [copy.deepcopy(p)], "responses": ok},
+                                   "post": {"operationId": "p", "parameters": [copy.deepcopy(p)], "responses": ok}}})
+    else:
+        return f"unknown case {case}"
+    f1, e1 = _tree(d1, text1, s1)
+    f2, e2 = _tree(d2, text2, s2)
+    if bool(e1) != bool(e2):
+        return f"{case}: diagnostics differ: {[(e.header, (e.detail or '')[:60]) for e in e1][:1]} vs {[(e.header, (e.detail or '')[:60]) for e in e2][:1]}"
+    diff = sorted(k for k in set(f1) | set(f2) if f1.get(k) != f2.get(k))
+    if diff:
+        import difflib
+        k = diff[0]
+        d = "\n".join(list(difflib.unified_diff((f1.get(k) or "").splitlines(), (f2.get(k) or "").splitlines(), lineterm="", n=0))[:8])
+        return f"{case}: generated trees differ in {diff[:4]}: {d[:400]}"
+    return None
